@@ -2,7 +2,8 @@
      kind = game  : text is a JSON document (field-escaped), decoded with BotGameState_schema
      kind = event : ... with BotEvent_schema
      kind = uci   : text is a move text, parsed with the model of UciMove::from_str
-   Observation:  `ok <canonical JSON of the normal form>` | `ok <move text>` | `err` | `PANIC`. *)
+   Observation:  `ok <canonical JSON of the normal form>` | `ok <move text>` | `err` | `PANIC`
+   (PANIC only for game / event: from_csv unwraps an unknown rule name; the move parser never panics). *)
 Require Import Ink.Lib.Str.
 Require Import NArith List Bool.
 Import ListNotations.
